@@ -397,6 +397,8 @@ def main(tier):
     bad = corr.flush("tls-machine/states-x-types")
     adversarial_flights(ctx, corr, thorough, rng.make("c11"))
     bad += corr.flush("tls-machine/adversarial-flights")
+    from harness import tlsrogue
+    tlsrogue.genuine_dfs(ctx)           # repetitions (each message up to 2x), prefix-tree search on the real client
     quic_level_flights(ctx, thorough, rng.make("c11-quic"))
     ctx.notes["correspondence_mismatches"] = bad
     ctx.cov["exhaustive"] = True
